@@ -88,7 +88,8 @@ def record_ops(fmt, prior):
 def run_scenario(scn):
     """One crash / fail scenario on a fresh copy of the template. Returns (violations, info)."""
     install_shims()
-    fmt, prior, mode, at, cut, loss = scn
+    fmt, prior, mode, at, cut, loss = scn[:6]
+    buffered = len(scn) > 6 and scn[6] == "buffered"
     tmpl = os.path.join(base_dir(), f"tmpl-{fmt}-{prior}")
     if not os.path.isdir(tmpl):
         prepare_template(fmt, prior)
@@ -101,7 +102,7 @@ def run_scenario(scn):
     viols = []
     replay = {"kind": "fault", "check": PROP, "scenario": list(scn)}
     gw = make_gateway(path, NEW)
-    fs = FaultFS(mode, at, cut)
+    fs = FaultFS(mode, at, cut, buffered=buffered)
     fs.install()
     raised = None
     try:
@@ -120,7 +121,7 @@ def run_scenario(scn):
             # the save finished before reaching the crash point (op index beyond this run)
             pass
         fs.apply_loss(loss)
-    sig_loc = f"{mode}@{opname}" + (f"+torn" if cut else "") + (f"|loss={loss if isinstance(loss, str) else 'prefix'}" if mode == "crash" else "")
+    sig_loc = ("buffered|" if buffered else "") + f"{mode}@{opname}" + (f"+torn" if cut else "") + (f"|loss={loss if isinstance(loss, str) else 'prefix'}" if mode == "crash" else "")
     if mode == "fail":
         if isinstance(raised, Exception) and not isinstance(raised, OSError):
             viols.append(Violation(PROP, f"fail-raises-other|{sig_loc}|{type(raised).__name__}", f"failing {describe(op)} made save raise {type(raised).__name__}: {raised}", replay))
@@ -209,6 +210,8 @@ def scenarios(tier):
             # one past the end: the save completes, nothing injected (sanity: must load 'new')
             for loss in ("none", "drop", "zero", ("prefix", 0), ("prefix", 1)):
                 scns.append((fmt, prior, "crash", len(ops), None, loss))
+    # second file model: Python's user-space buffer (data reaches the OS at flush/close, is lost at process death)
+    scns += [s + ("buffered",) for s in scns if s[4] is None and (s[5] in ("none", "drop", "zero") or s[5] == ("prefix", 0))]
     cleanup_process_scratch()
     return scns, oplog
 
@@ -248,6 +251,7 @@ def run(tier):
     cov["prefix_j"] = "every j" if tier == "thorough" else "j in {0,1,half,last}"
     report.assumptions = [
         "file model: per-file durable bytes (covered by the last fsync) vs volatile bytes at write-call granularity; directory operations (create, rename, remove) atomic, ordered and durable",
+        "every scenario is run under two write models: unbuffered (each write call reaches the OS at once) and buffered (data sits in a user-space buffer until flush/close and dies with the process)",
         "loss modes: none (process death only), drop (volatile bytes lost), zero (volatile bytes read as NUL), prefix-j (first j unsynced writes survive)",
         "old, stale and new states are three different node sets; stale .bak/.tmp files hold the stale state",
     ]
